@@ -17,8 +17,8 @@ RULE = ('one case = one complete OMOPSO / SMPSO / PSOGA run (N 2-10, G 1-5, n 1-
         'the same public methods particles with positions / velocities up to 1e3 ranges outside the box.  Non-trivial = at '
         'least one particle went through a before/after oracle; distinct = hash of (configuration, calls, last vectors).')
 ASSUMPTIONS = [
-    'update_particle_best is judged with sequential semantics (one particle at a time): PSOGA lets two particles share one '
-    'features dict (observation O4), a whole-list before/after comparison would raise false alarms',
+    'update_particle_best runs unmodified on the whole list; the oracle replays the list against a per-record model with '
+    'sequential semantics, because PSOGA lets two particles share one features dict (observation O4)',
     'position rule judged per coordinate from the pre-state t = x + v with exact float equality (same operations)',
     'leader mutual non-domination judged with textbook constrained Pareto dominance on signed costs',
 ]
@@ -36,32 +36,45 @@ FACTOR = {'OMOPSO': -1, 'PSOGA': -1, 'SMPSO': 0.001}
 
 def hooks(ctx, w, N):
     def pbest(orig, self, population):
+        """the real method runs once on the whole list (the monitor must not change what the SUT does); the oracle replays the
+        list against a model with sequential semantics - one record per features dict, because PSOGA lets a GA child share
+        the record of the particle it was bred from (O4): a record is never replaced by a position it dominates, whoever
+        of the sharing particles asks"""
         site = 'SwarmAlgorithm.update_particle_best'
-        seen = set()
+        model = {}
         for particle in population:
-            if id(particle.features) in seen:
+            f = particle.features
+            if id(f) not in model:
+                model[id(f)] = [list(f['best_cost']) if f['best_cost'] is not None else None,
+                                list(f['best_vector']) if f['best_vector'] is not None else None, f]
+            else:
                 ctx.probe('shared_features')
-            seen.add(id(particle.features))
-            old_cost = list(particle.features['best_cost']) if particle.features['best_cost'] is not None else None
-            old_vec = list(particle.features['best_vector']) if particle.features['best_vector'] is not None else None
-            orig(self, [particle])
-            if old_cost is None:
+        snapshot = [(list(p.costs_signed), list(p.vector), id(p.features)) for p in population]
+        r = orig(self, population)
+        for cs, vec, fid in snapshot:
+            rec = model[fid]
+            if rec[0] is None:
+                rec[0], rec[1] = cs, vec
                 continue
             ctx.check()
-            new_cost = list(particle.features['best_cost'])
-            new_vec = list(particle.features['best_vector'])
-            keep = R.dominates(old_cost, particle.costs_signed) == 1
-            if keep:
+            if R.dominates(rec[0], cs) == 1:
                 ctx.probe('pbest_kept')
-                if new_cost != old_cost or new_vec != old_vec:
-                    ctx.violation('pbest_regressed', site, 'personal best %r (vector %r) dominates the new position %r but was '
-                                  'replaced by %r' % (old_cost, old_vec, list(particle.costs_signed), new_cost))
             else:
                 ctx.probe('pbest_replaced')
-                if new_cost != list(particle.costs_signed) or new_vec != list(particle.vector):
-                    ctx.violation('pbest_not_replaced', site, 'old best %r does not dominate the new position %r, yet the best is %r'
-                                  % (old_cost, list(particle.costs_signed), new_cost))
-        return None
+                rec[0], rec[1] = cs, vec
+        for fid, (cost, vec, f) in model.items():
+            if cost is None:
+                continue
+            got_c = list(f['best_cost']) if f['best_cost'] is not None else None
+            got_v = list(f['best_vector']) if f['best_vector'] is not None else None
+            if got_c != cost or got_v != vec:
+                mine = [cs for cs, _, i in snapshot if i == fid]
+                regress = got_c is not None and any(R.dominates(c, got_c) == 1 for c in mine + [cost])
+                ctx.violation('pbest_regressed' if regress else 'pbest_not_replaced', site,
+                              'personal best is %r (vector %r), expected %r (vector %r); new positions of the particle(s) owning '
+                              'this record, in order: %r' % (got_c, got_v, cost, vec, mine))
+                break
+        return r
 
     def velocity(orig, self, individuals):
         r = orig(self, individuals)
